@@ -5,6 +5,7 @@ import (
 	"fmt"
 	"github.com/atombender/go-jsonschema/pkg/generator"
 	"os"
+	"os/exec"
 	"path/filepath"
 	"sort"
 	"strings"
@@ -208,6 +209,67 @@ func init() {
 			}
 		}
 		c.Programs += 2 * len(collSets)
+		// defaults that the literal printer treats specially (repeated empty arrays / objects inside one element, the same
+		// sub-value twice, nested empties) next to a scalar default, generated 30 times in ONE process: the printer's
+		// package-level configuration must not drift between generations
+		for di, dflt := range []any{
+			[]any{sgen.M{"allow": []any{}, "deny": []any{}}}, []any{[]any{}, []any{}}, []any{sgen.M{"a": sgen.M{}, "b": sgen.M{}}},
+			[]any{sgen.M{"x": []any{1}, "y": []any{1}}}, sgen.M{"allow": []any{}, "deny": []any{}, "n": 1}, []any{"s", "s"}, []any{[]any{[]any{}}, []any{[]any{}}},
+		} {
+			var node sgen.M
+			if _, isObj := dflt.(sgen.M); isObj {
+				node = sgen.M{"type": "object", "default": dflt}
+			} else {
+				node = sgen.M{"type": "array", "default": dflt}
+			}
+			for _, scalarFirst := range []bool{true, false} {
+				props := sgen.M{"filters": node, "zname": sgen.M{"type": "string", "default": "anonymous"}}
+				if scalarFirst {
+					props = sgen.M{"zfilters": node, "aname": sgen.M{"type": "string", "default": "anonymous"}}
+				}
+				root := sgen.M{"$id": "urn:c12", "type": "object", "properties": props}
+				content := core.MustJSON(root)
+				cfg := core.DefaultCfg()
+				cfg.Tags = []string{"json"}
+				dir := filepath.Join(tmp, fmt.Sprintf("dflt%d-%v", di, scalarFirst))
+				ref := genSrc(dir, "schema.json", content, cfg, "urn:c12")
+				// … and in a FRESH process (this one has generated thousands of schemas already): its first generation
+				// against its second and third, and against this process's
+				if self, err := os.Executable(); err == nil {
+					fn := filepath.Join(dir, "fresh.json")
+					_ = os.WriteFile(fn, content, 0o644)
+					cmd := exec.Command(self, "gentwice", fn)
+					cmd.Env = core.GoEnv()
+					if outb, err := cmd.Output(); err == nil {
+						gens := strings.Split(string(outb), "\n=====VERIF-GENERATION-END=====\n")
+						for gi := 0; gi+1 < len(gens); gi++ {
+							c.Eval(fmt.Sprintf("default-literals-fresh-process|%d|%v|%d", di, scalarFirst, gi))
+							if gens[gi] != ref {
+								fails++
+								if fails <= 3 {
+									c.Fail("oracle", fmt.Sprintf("a default with repeated empty values (%s): generation %d of a fresh process differs from the same generation in a process that has generated before", clip(string(core.MustJSON(dflt)), 60), gi+1),
+										M{"kind": "relational", "variant": "fresh-process", "cfg": cfg, "schema": string(content), "reference_output": clip(ref, 1500), "variant_output": clip(gens[gi], 1500)}, false)
+								}
+								break
+							}
+						}
+					}
+				}
+				for rep := 0; rep < 30; rep++ {
+					got := genSrc(filepath.Join(dir, fmt.Sprint(rep)), "schema.json", content, cfg, "urn:c12")
+					c.Eval(fmt.Sprintf("default-literals|%d|%v|%v", di, scalarFirst, got == ref))
+					if got != ref {
+						fails++
+						if fails <= 3 {
+							c.Fail("oracle", fmt.Sprintf("a default with repeated empty values (%s): repetition %d of the same generation in one process gives other bytes", clip(string(core.MustJSON(dflt)), 60), rep+1),
+								M{"kind": "relational", "variant": "repeat", "cfg": cfg, "schema": string(content), "reference_output": clip(ref, 1500), "variant_output": clip(got, 1500)}, false)
+						}
+						break
+					}
+				}
+			}
+		}
+		c.Programs += 14
 		// the same definition listed TWICE among the branches of an allOf / anyOf, next to a branch that disagrees with
 		// it on first-wins keywords (description, a shared member's limits): whatever de-duplicates or indexes the
 		// branches must keep their order — 30 generations each
